@@ -318,6 +318,9 @@ class _rewrite_captured_vars(ast.NodeTransformer):
         def safe_parse_wrapper(x: Callable) -> Optional[ast.Lambda]:
             if any(x is f for f in self._expanding):
                 return None
+            if getattr(x, "_func_adl_registered", False):
+                # A function registered with `func_adl_callable` is a backend function: it stays by name.
+                return None
             if inspect.ismethod(x):
                 # A bound method carries its object: its source text alone is not the callable.
                 return None
